@@ -102,6 +102,9 @@ def run(ctx):
                 if not rec["op"].startswith("control."):
                     calls += rec["calls"]
                     ctx.nontrivial.add((rec["op"], rec["cls"], i))
+            if r["k"] != "control" and r["rt"] and (i % 40000 == 7 or r["k"] in ("msgrand",)) :
+                inp_line = lines[i - 1]
+                ctx.sample(dict(kind=r["k"], input=json.dumps(inp_line)[:300], realtime_records=r["rt"][:6]))
             if r["k"] == "control":
                 # the observers must see what the control does, and the judge must say so
                 got = rej.pop(i, None)
